@@ -7,8 +7,11 @@ import (
 	"bytes"
 	"crypto/sha256"
 	"encoding/binary"
+	"encoding/hex"
+	"encoding/json"
 	"errors"
 	"fmt"
+	"math/big"
 	"math/rand/v2"
 	"reflect"
 )
@@ -41,15 +44,15 @@ type Schema struct {
 	Name   string
 }
 
-func U(width uint64) *Schema               { return &Schema{Kind: Uint, Size: width} }
-func B(n uint64) *Schema                   { return &Schema{Kind: Bytes, Size: n} }
-func BL(limit uint64) *Schema              { return &Schema{Kind: ByteList, Limit: limit} }
-func Vec(e *Schema, n uint64) *Schema      { return &Schema{Kind: Vector, Elem: e, Size: n} }
-func Lst(e *Schema, limit uint64) *Schema  { return &Schema{Kind: List, Elem: e, Limit: limit} }
-func BitVec(n uint64) *Schema              { return &Schema{Kind: Bitvector, Size: n} }
-func BitLst(limit uint64) *Schema          { return &Schema{Kind: Bitlist, Limit: limit} }
-func C(name string, f ...Field) *Schema    { return &Schema{Kind: Container, Name: name, Fields: f} }
-func F(name string, s *Schema) Field       { return Field{Name: name, S: s} }
+func U(width uint64) *Schema              { return &Schema{Kind: Uint, Size: width} }
+func B(n uint64) *Schema                  { return &Schema{Kind: Bytes, Size: n} }
+func BL(limit uint64) *Schema             { return &Schema{Kind: ByteList, Limit: limit} }
+func Vec(e *Schema, n uint64) *Schema     { return &Schema{Kind: Vector, Elem: e, Size: n} }
+func Lst(e *Schema, limit uint64) *Schema { return &Schema{Kind: List, Elem: e, Limit: limit} }
+func BitVec(n uint64) *Schema             { return &Schema{Kind: Bitvector, Size: n} }
+func BitLst(limit uint64) *Schema         { return &Schema{Kind: Bitlist, Limit: limit} }
+func C(name string, f ...Field) *Schema   { return &Schema{Kind: Container, Name: name, Fields: f} }
+func F(name string, s *Schema) Field      { return Field{Name: name, S: s} }
 
 var U8, U16, U32, U64, U128, U256 = U(1), U(2), U(4), U(8), U(16), U(32)
 var Boolean = &Schema{Kind: Bool}
@@ -821,5 +824,74 @@ func fromGo(s *Schema, rv reflect.Value) *Value {
 	panic("kind")
 }
 
-func RootOf(s *Schema, x any) [32]byte  { return HashTreeRoot(s, FromGo(s, x)) }
-func BytesOf(s *Schema, x any) []byte   { return Encode(s, FromGo(s, x)) }
+func RootOf(s *Schema, x any) [32]byte { return HashTreeRoot(s, FromGo(s, x)) }
+func BytesOf(s *Schema, x any) []byte  { return Encode(s, FromGo(s, x)) }
+
+// JSONOf renders a value in the consensus API JSON conventions as a generic tree with every scalar turned into a string
+// (decimal for integers and booleans as "true"/"false", 0x-hex for byte strings and bitfields in their SSZ byte form),
+// so that it can be compared with a parsed JSON document after the same normalisation.
+func JSONOf(s *Schema, v *Value) any {
+	switch s.Kind {
+	case Uint:
+		if s.Size > 8 {
+			n := new(big.Int)
+			be := make([]byte, len(v.B))
+			for i := range v.B {
+				be[len(v.B)-1-i] = v.B[i]
+			}
+			n.SetBytes(be)
+			return n.String()
+		}
+		return fmt.Sprintf("%d", v.U)
+	case Bool:
+		if v.U != 0 {
+			return "true"
+		}
+		return "false"
+	case Bytes, ByteList:
+		return "0x" + hex.EncodeToString(v.B)
+	case Bitvector, Bitlist:
+		return "0x" + hex.EncodeToString(Encode(s, v))
+	case Vector, List:
+		out := make([]any, len(v.Items))
+		for i, it := range v.Items {
+			out[i] = JSONOf(s.Elem, it)
+		}
+		return out
+	case Container:
+		out := map[string]any{}
+		for i, f := range s.Fields {
+			out[f.Name] = JSONOf(f.S, v.Items[i])
+		}
+		return out
+	}
+	panic("kind")
+}
+
+// NormalizeJSON turns every scalar of a parsed JSON document into a string (numbers in decimal, booleans, strings as they are).
+func NormalizeJSON(x any) any {
+	switch t := x.(type) {
+	case map[string]any:
+		out := map[string]any{}
+		for k, v := range t {
+			out[k] = NormalizeJSON(v)
+		}
+		return out
+	case []any:
+		out := make([]any, len(t))
+		for i, v := range t {
+			out[i] = NormalizeJSON(v)
+		}
+		return out
+	case json.Number:
+		return t.String()
+	case bool:
+		if t {
+			return "true"
+		}
+		return "false"
+	case nil:
+		return []any{}
+	}
+	return x
+}
